@@ -208,6 +208,7 @@ func canonicalPadding(s []byte, ns []byte, ver uint8) bool {
 
 func (c *Ctx) squareCase(sc sqCase) {
 	c.newCase()
+	c.setClass(sc.class)
 	txs := rawList(sc.txs)
 	l := hxList(txs)
 	b1 := safeBuild(txs, sc.max, sc.thr)
@@ -284,6 +285,8 @@ func (c *Ctx) squareCase(sc sqCase) {
 			break
 		}
 	}
+	// the decoders below run on the bytes the real code produced (not on the model's square)
+	c.emit("sh set "+hxList(raw), "ok "+digList(raw))
 	// decode kept blob txs, find recorded indexes
 	wp, wout := safeWPFBs(sq)
 	c.emit("sh wpfbs", wout)
@@ -326,7 +329,7 @@ func (c *Ctx) squareCase(sc sqCase) {
 	}
 	txShares := share.GetShareRangeForNamespace(sq, share.TxNamespace)
 	pfbShares := share.GetShareRangeForNamespace(sq, share.PayForBlobNamespace)
-	if indexesOK && sc.class != "compact-ns-blob" {
+	if indexesOK {
 		// ---- C04 ----
 		order := append([]placedBlob(nil), placed...)
 		sort.SliceStable(order, func(a, b int) bool {
@@ -441,10 +444,10 @@ func (c *Ctx) squareCase(sc sqCase) {
 	}
 	// ---- C02 ----
 	dtx, dout := safeDeconstruct(sq)
-	c.emit("sq construct "+fmt.Sprintf("%d %d %s", sc.max, sc.thr, kl), cout) // restore register R
+	c.emit("sh set "+hxList(raw), "ok "+digList(raw)) // restore register R
 	c.emit("sh deconstruct", dout)
 	c.oracle()
-	if sc.class == "" {
+	if sc.class != "empty-tx" {
 		if dtx == nil && dout != "ok n=0 H=cbf29ce484222325 []" || !eqTxs(dtx, b1.kept) {
 			fail("C02", fmt.Sprintf("Deconstruct(Construct(kept)) returned %s for %d kept txs", trunc(dout, 120), len(b1.kept)))
 		}
@@ -454,9 +457,6 @@ func (c *Ctx) squareCase(sc sqCase) {
 		o, seqs := safeParseShares(sq, ign)
 		c.emit("sh parseshares "+b2s(ign), o)
 		c.oracle()
-		if sc.class == "compact-ns-blob" {
-			continue
-		}
 		if seqs == nil && !strings.HasPrefix(o, "ok") {
 			fail("C20", fmt.Sprintf("ParseShares(ignorePadding=%v) failed on a constructed square: %s", ign, o))
 			continue
@@ -635,7 +635,9 @@ type refEst struct {
 	txBytes, pfbBytes, blobShares int
 }
 
-func (e refEst) total() int { return refCompactCount(e.txBytes) + refCompactCount(e.pfbBytes) + e.blobShares }
+func (e refEst) total() int {
+	return refCompactCount(e.txBytes) + refCompactCount(e.pfbBytes) + e.blobShares
+}
 
 func (e refEst) with(t genTx, thr int) refEst {
 	if !t.isBlob {
@@ -686,6 +688,7 @@ func streamBHist(c *Ctx) {
 	for i := 0; i < nh; i++ {
 		c.newCase()
 		sc := c.genSquareCase([]int{1, 2, 2, 4, 4, 8, 8, 16})
+		c.setClass(sc.class)
 		b, err := square.NewBuilder(sc.max, sc.thr)
 		c.emit(fmt.Sprintf("b new %d %d", sc.max, sc.thr), okErr(err))
 		if err != nil {
@@ -762,7 +765,7 @@ func streamBHist(c *Ctx) {
 			c.oracle()
 			ne := est.with(t, sc.thr)
 			wantAcc := ne.total() <= sc.max*sc.max
-			if sc.class != "compact-ns-blob" && acc != wantAcc {
+			if acc != wantAcc {
 				fail("C06", fmt.Sprintf("append of a %d-byte %s was accepted=%v, but the worst-case estimate with it is %d for a maximum of %d shares", len(t.raw), kind, acc, ne.total(), sc.max*sc.max))
 			}
 			if acc {
@@ -772,7 +775,7 @@ func streamBHist(c *Ctx) {
 				if sawExport {
 					exportBetween = true
 				}
-				if sc.class != "compact-ns-blob" && b.CurrentSize() != ne.total() {
+				if b.CurrentSize() != ne.total() {
 					fail("C06", fmt.Sprintf("running estimate is %d after the append, the closed-form worst case is %d", b.CurrentSize(), ne.total()))
 				}
 			} else {
@@ -804,7 +807,7 @@ func streamBHist(c *Ctx) {
 			fail("C06", "final Export returned an error or panicked")
 			continue
 		}
-		if sc.class != "compact-ns-blob" {
+		{
 			if occ := occupied(final); occ > b.CurrentSize() && len(accepted) > 0 {
 				fail("C06", fmt.Sprintf("%d shares are occupied but the running estimate is only %d", occ, b.CurrentSize()))
 			}
@@ -836,6 +839,58 @@ func streamBHist(c *Ctx) {
 		}
 		if exportBetween {
 			c.dist("export-between-appends")
+		}
+	}
+}
+
+
+// ---- KF1: the committed witnesses of the known finding (DESIGN.md §7) ----
+
+func init() {
+	streams["KF1"] = streamKF1
+	streamRules["KF1"] = "fixed witnesses of known finding KF1 (a blob whose namespace is the tx or pay-for-blob namespace is written with the compact layout but counted with sparse capacity), replayed on every run through the same oracles"
+}
+
+func (c *Ctx) fixedBlobTx(specs []blobSpec) genTx {
+	raw := c.makeBlobTx(specs, 10)
+	btx, _, _ := tx.UnmarshalBlobTx(raw)
+	return genTx{raw: raw, isBlob: true, inner: btx.Tx, blobs: specs}
+}
+
+func kf1Cases(c *Ctx) []sqCase {
+	user := v0ns(9, 9)
+	fill := func(n int) []byte { return bytes.Repeat([]byte{0x5a}, n) }
+	return []sqCase{
+		{max: 64, thr: 64, class: "compact-ns-blob", desc: "KF1-a: BlobTx{blob in TxNamespace of 478 bytes, user blob of 100 bytes}",
+			txs: []genTx{c.fixedBlobTx([]blobSpec{{ns: share.TxNamespace.Bytes(), data: fill(478)}, {ns: user.Bytes(), data: fill(100)}})}},
+		{max: 16, thr: 64, class: "compact-ns-blob", desc: "KF1-b: BlobTx{blob in TxNamespace of AvailableBytesFromSparseShares(252) bytes}",
+			txs: []genTx{c.fixedBlobTx([]blobSpec{{ns: share.TxNamespace.Bytes(), data: fill(share.AvailableBytesFromSparseShares(252))}})}},
+		{max: 64, thr: 64, class: "compact-ns-blob", desc: "KF1-c: BlobTx{blob in PayForBlobNamespace of 2000 bytes, user blob of 600 bytes}",
+			txs: []genTx{c.fixedBlobTx([]blobSpec{{ns: share.PayForBlobNamespace.Bytes(), data: fill(2000)}, {ns: user.Bytes(), data: fill(600)}})}},
+	}
+}
+
+func streamKF1(c *Ctx) {
+	for _, sc := range kf1Cases(c) {
+		c.squareCase(sc)
+		c.commitCase(sc)
+		// the same input as an append history (C06)
+		c.newCase()
+		c.setClass(sc.class)
+		b, _ := square.NewBuilder(sc.max, sc.thr)
+		c.emit(fmt.Sprintf("b new %d %d", sc.max, sc.thr), "ok")
+		for _, t := range sc.txs {
+			btx, _, _ := tx.UnmarshalBlobTx(t.raw)
+			acc := b.AppendBlobTx(btx)
+			c.emit("b tx "+hx(t.raw), fmt.Sprintf("btx acc=%s size=%d", b2s(acc), b.CurrentSize()))
+		}
+		sq, out := safeExport(b)
+		c.emit("b export", out)
+		c.oracle()
+		if sq == nil {
+			c.violate("C06", sc.class, "Export returned an error on a reachable builder state ("+sc.desc+")", "", c.caseOps)
+		} else if occ := occupied(sq); occ > b.CurrentSize() {
+			c.violate("C06", sc.class, fmt.Sprintf("%d shares are occupied but the running estimate is only %d (%s)", occ, b.CurrentSize(), sc.desc), "", c.caseOps)
 		}
 	}
 }
